@@ -75,7 +75,7 @@ Inductive prim :=
 | PLt | PGt | PLe | PGe | PEq | PNe
 | PNot
 | PCons | PFirst | PRest | PList
-| PArray | PAget | PAset | PAppend | PLen
+| PArray | PAget | PAset | PAppend | PLen | PConcat
 | PMap | PApply
 | PTrace            (* host: records its arguments, returns the first *)
 | PFailK            (* host: counts its calls, raises a user error on call number fail_at *)
@@ -775,6 +775,14 @@ Section Open.
     | _ => raise EOther
     end.
 
+  (* arrayutils.go:ConcatArray as the reference semantics has it (RefSem.v:cat_arrs) *)
+  Fixpoint cat_arrs (acc : list value) (rest : list value) : M (list value) :=
+    match rest with
+    | [] => ret acc
+    | VArr b :: r => o <- liftC (get_arr b) ;; cat_arrs (acc ++ a_elems o) r
+    | _ => raise EOther
+    end.
+
   Definition prim_apply (p : prim) (args : list value) : M value :=
     match p with
     | PAdd => match args with a :: r => arith Z.add a r | [] => raise EOther end
@@ -875,6 +883,17 @@ Section Open.
         else raise EOther
       | _ => raise EOther
       end
+    | PConcat =>                       (* functions.go:ConcatFunction, as in RefSem.v *)
+      if existsb (fun v => match v with VSym _ => true | _ => false end) args then raise EUnspec
+      else match args with
+           | VArr a :: rest =>
+             o <- liftC (get_arr a) ;;
+             els <- cat_arrs (a_elems o) rest ;;
+             if Nat.eqb (length els) (length (a_elems o)) then raise EUnspec
+             else liftC (alloc_arr els None)
+           | VStr _ :: _ | VPair _ _ :: _ => raise EUnspec
+           | _ => raise EOther
+           end
     | PTrace => liftC (trace_c args)
     | PFailK => liftC (failk_c args)
     | PForce =>                       (* functions.go:ForceFunction: a non-thunk is returned as it is *)
@@ -970,14 +989,14 @@ with apply (n : nat) (f : value) (args : list value) {struct n} : M value :=
 
 Definition all_prims : list prim :=
   [PAdd; PSub; PMul; PLt; PGt; PLe; PGe; PEq; PNe; PNot; PCons; PFirst; PRest; PList;
-   PArray; PAget; PAset; PAppend; PLen; PMap; PApply; PTrace; PFailK; PForce; PSubst].
+   PArray; PAget; PAset; PAppend; PLen; PMap; PApply; PTrace; PFailK; PConcat; PForce; PSubst].
 
 Definition prim_ident (p : prim) : ident :=
   match p with
   | PAdd => 1 | PSub => 2 | PMul => 3 | PLt => 4 | PGt => 5 | PLe => 6 | PGe => 7 | PEq => 8
   | PNe => 9 | PNot => 10 | PCons => 11 | PFirst => 12 | PRest => 13 | PList => 14
   | PArray => 15 | PAget => 16 | PAset => 17 | PAppend => 18 | PLen => 19 | PMap => 20
-  | PApply => 21 | PTrace => 22 | PFailK => 23 | PForce => 24 | PSubst => 25
+  | PApply => 21 | PTrace => 22 | PFailK => 23 | PConcat => 24 | PForce => 25 | PSubst => 26
   end.
 
 Definition global_frame : frame := map (fun p => (prim_ident p, VPrim p)) all_prims.
